@@ -66,7 +66,6 @@ Proof. exact lane_errors_iff. Qed.
 Theorem C13_frame_verdict : forall c s rf fr ly, rf_frame rf = Some fr -> fr_lanes fr <> [] -> rf_layer rf = Some ly ->
   Forall (lane_total ly (v_chip_count c) (v_chip_orders c)) (fr_lanes fr) ->
   N.of_nat (length (fr_lanes fr)) + N.of_nat (length (known_of (rf_fatal_lanes rf))) < 18446744073709551616 ->
-  (ly = L_Inner -> forall x, In x (known_of (rf_fatal_lanes rf)) -> x <= 8) ->
   exists s' m1 m3,
     process_readout_frame c s rf = Ok (s', m1 ++ [VStats (flags_of (fr_lanes fr) rflags_zero)] ++ m3) /\
     (m1 = [] <-> lanes_rule ly (map fst (fr_lanes fr)) (known_of (rf_fatal_lanes rf))) /\
@@ -75,7 +74,8 @@ Theorem C13_frame_verdict : forall c s rf fr ly, rf_frame rf = Some fr -> fr_lan
     (forall m, In m m3 -> exists t, m = VErr (mk_err_t (fr_start fr) (frame_code ly true) t)) /\
     (exists rf', cs_rfv s' = Some rf' /\ rf_frame rf' = None /\ rf_in_frame rf' = false /\
                  rf_fatal_lanes rf' = add_fatal_lanes true (rf_fatal_lanes rf) (fatal_of ly (v_chip_count c) (v_chip_orders c) (fr_lanes fr))).
-Proof. exact (c13_process_frame_when Gen.Facts.fatal_lanes_added_after_lane_check Gen.Facts.fatal_lanes_deduplicated eq_refl eq_refl eq_refl). Qed.
+Proof. exact (c13_process_frame_when Gen.Facts.fatal_lanes_added_after_lane_check Gen.Facts.fatal_lanes_deduplicated
+               Gen.Facts.fatal_lane_beyond_barrel_is_ignored eq_refl eq_refl eq_refl eq_refl eq_refl). Qed.
 
 (* the hypothesis of C13_frame_verdict holds for every encoded lane that has a chip or a fatal word *)
 Theorem C13_encoded_lanes_are_total : forall ly cc co id items, forallb item_wf items = true ->
@@ -86,9 +86,8 @@ Proof. exact encoded_lane_total. Qed.
 Theorem C13_lane_count_rule : forall ly fr fatal,
   let f := match fatal with Some f => f | None => [] end in
   N.of_nat (length (fr_lanes fr)) + N.of_nat (length f) < 18446744073709551616 ->
-  (ly = L_Inner -> forall x, In x f -> x <= 8) ->
   exists r, frame_lanes_valid ly fr fatal = Ok r /\ (r = None <-> lanes_rule ly (map fst (fr_lanes fr)) f).
-Proof. exact frame_lanes_valid_iff. Qed.
+Proof. exact (frame_lanes_valid_iff_when Gen.Facts.fatal_lane_beyond_barrel_is_ignored eq_refl eq_refl). Qed.
 
 (* the behaviour of the pinned commit (defects F10, F9), as witnesses *)
 Theorem C13_refuted_announcing_frame :
@@ -101,6 +100,12 @@ Theorem C13_refuted_double_announcement :
   frame_lanes_valid L_Inner fr (add_fatal_lanes false (Some [1]) [1]) = Ok (Some 1) /\
   frame_lanes_valid L_Inner fr (add_fatal_lanes true (Some [1]) [1]) = Ok None.
 Proof. exact c13_refuted_double_announcement. Qed.
+
+(* the behaviour of the pinned commit for a fatal lane number that is no inner barrel lane (defect F17): a crash; now: ignored *)
+Theorem C13_refuted_fatal_lane_beyond_barrel :
+  inner_groupings_gen false [0; 1] [9] = Panic SITE_fatal_lane_number /\ inner_groupings_gen true [0; 1] [9] = Ok (Some 2) /\
+  inner_groupings_gen true [0; 2] [9; 1] = Ok None.
+Proof. exact c13_refuted_fatal_lane_beyond_barrel. Qed.
 
 Print Assumptions C13_decoder_recovers_skeleton.
 Print Assumptions C13_hits_irrelevant.
@@ -116,3 +121,4 @@ Print Assumptions C13_encoded_lanes_are_total.
 Print Assumptions C13_lane_count_rule.
 Print Assumptions C13_refuted_announcing_frame.
 Print Assumptions C13_refuted_double_announcement.
+Print Assumptions C13_refuted_fatal_lane_beyond_barrel.
